@@ -728,6 +728,9 @@ def explore_run_model(ix, thorough=False, mutate=None):
             name, failed = ev[1], ev[3]
             seq = g.get("allseq", "start")
             if name == "before_all":
+                if not g.get("capture_ready"):
+                    g.setdefault("k10.err", "the before_all hook runs before the capture is set up: logging handlers and streams it installs are not "
+                                 "taken over by the capture (their output goes to the real streams during the whole run)")
                 if seq != "start":
                     g.setdefault("h4.err", "before_all called in state %s" % seq)
                 g["allseq"] = "began"
@@ -741,6 +744,8 @@ def explore_run_model(ix, thorough=False, mutate=None):
                 g.setdefault("h4.err", "unexpected hook %s in run_model" % name)
             if failed is True:
                 g["hook_failed_any"] = True
+        elif k == "setup_capture":
+            g["capture_ready"] = True
         elif k == "child.run":
             if g.get("allseq", "start") not in ("began", "features"):
                 g.setdefault("h4.err", "a feature is run in state %s (before before_all / after after_all)" % g.get("allseq", "start"))
@@ -834,7 +839,7 @@ def explore_run_model(ix, thorough=False, mutate=None):
                 s.ghost["hook_failure_counted"] = True
         return outs
     stubs["ModelRunner.run_hook"] = run_hook
-    stubs["ModelRunner.setup_capture"] = lambda it, st, a, k, n: [(st, "val", None)]
+    stubs["ModelRunner.setup_capture"] = lambda it, st, a, k, n: (it.emit(st, ("setup_capture",)), [(st, "val", None)])[1]
     attr_stubs = {"ContextStub.aborted": lambda it, st, base, node: w.read_aborted(it, st, node)}
     it = Interp(ix, stubs=stubs, on_event=mons, name="ModelRunner.run_model", attr_stubs=attr_stubs)
     st = w.new_state()
@@ -870,7 +875,7 @@ def explore_run_model(ix, thorough=False, mutate=None):
             "hook_failures_grew": g.get("hook_failures_grew", False),
             "cleanups_called": g.get("cleanups_called", False),
             "allseq": g.get("allseq", "start"), "h4_err": g.get("h4.err"), "stop_err": g.get("stop.err"), "skip_err": g.get("skip.err"),
-            "y4_err": g.get("y4.err"), "f4_err": g.get("f4.err"),
+            "y4_err": g.get("y4.err"), "f4_err": g.get("f4.err"), "k10_err": g.get("k10.err"),
             "closed": [bool(g.get("closed%d" % i)) for i in range(w.n_formatters)],
             "ended": [bool(g.get("ended%d" % i)) for i in range(2)],
             "dry_run": s.obj(cfg).fields.get("dry_run") if isinstance(s.obj(cfg).fields.get("dry_run"), bool) else None,
